@@ -59,7 +59,7 @@ func (c *netFD) Close() (err error) {
 	if atomic.AddUint32(&c.closed, 1) != 1 {
 		return nil
 	}
-	if !c.detaching && c.fd > 2 {
+	if atomic.LoadInt32(&c.detaching) == 0 && c.fd > 2 {
 		err = syscall.Close(c.fd)
 		if err != nil {
 			logger.Printf("NETPOLL: netFD[%d] close error: %s", c.fd, err.Error())
